@@ -15,7 +15,7 @@
 (* LayoutProps (footer truthfulness, page legality, framing): the same     *)
 (* definitions that MC_Dremel / MC_Layout model-check.                     *)
 (***************************************************************************)
-EXTENDS Dremel, LayoutProps, Stats, Json
+EXTENDS Dremel, LayoutProps, Stats, PoolProps, Json
 
 CONSTANTS TraceFile,   \* ndjson file with the recorded events
           Props        \* property ids whose conjuncts are evaluated
@@ -284,6 +284,19 @@ TIntro ==
   /\ Chk("HARNESS", "WalkMatchesSink", Len(Ev.ipages) = Cardinality(HdrIdxOf(snk)))
   /\ UNCHANGED <<caseId, schema, cols, maxPage, codecN, recs, batches, snk, wc, faultK, rowsTab>>
 
+\* schedule replay (C13): instances under a prescribed interleaving versus their solo runs
+TSched ==
+  /\ More /\ Ev.ev = "Sched"
+  /\ l' = l + 1
+  /\ Chk("HARNESS", "PoolHandsBackLastBuffer", Ev.pooltest)
+  /\ Chk("C13", "NonInterference", NonInterferenceOn(Ev.out))
+  /\ UNCHANGED <<caseId, schema, cols, maxPage, codecN, recs, batches, snk, wc, faultK, rowsTab>>
+TStress ==
+  /\ More /\ Ev.ev = "Stress"
+  /\ l' = l + 1
+  /\ Chk("C13", "ConcurrentRunsEqualSoloRuns", Ev.nbad = 0 /\ Ev.runs > 0)
+  /\ UNCHANGED <<caseId, schema, cols, maxPage, codecN, recs, batches, snk, wc, faultK, rowsTab>>
+
 TRows ==
   /\ More /\ Ev.ev = "Rows"
   /\ l' = l + 1
@@ -306,14 +319,14 @@ TSinkCall ==
 
 \* ---------------------------------------------------------------- other lines
 TOther ==
-  /\ More /\ Ev.ev \notin {"Reset", "New", "Add", "Write", "Close", "Read", "Rows", "Foreign", "Intro", "SinkRun", "SinkCall"}
+  /\ More /\ Ev.ev \notin {"Reset", "New", "Add", "Write", "Close", "Read", "Rows", "Foreign", "Intro", "Sched", "Stress", "SinkRun", "SinkCall"}
   /\ l' = l + 1
   /\ Chk("HARNESS", "DriverPanic", Ev.ev # "DriverPanic")
   /\ UNCHANGED <<caseId, schema, cols, maxPage, codecN, recs, batches, snk, wc, faultK, rowsTab>>
 
 TDone == /\ l = Len(Trace) + 1 /\ PrintT(<<"TRACEDONE", Len(Trace)>>) /\ UNCHANGED vars
 
-Next == TReset \/ TNew \/ TAdd \/ TWrite \/ TClose \/ TRead \/ TRows \/ TForeign \/ TIntro \/ TSinkRun \/ TSinkCall \/ TOther \/ TDone
+Next == TReset \/ TNew \/ TAdd \/ TWrite \/ TClose \/ TRead \/ TRows \/ TForeign \/ TIntro \/ TSched \/ TStress \/ TSinkRun \/ TSinkCall \/ TOther \/ TDone
 Spec == Init /\ [][Next]_vars
 
 \* every line was consumed: one state per line plus the initial state
